@@ -539,11 +539,11 @@ def freshAnswer (c : Content) (q : Query) : Except Err Ans := do
 /-! ### histories -/
 
 inductive HOp where
-  | mut (op : Op)
+  | edit (op : Op)
   | ask (q : Query)
 
 def stepH (s : State) : HOp → State
-  | .mut op => (step s op).1
+  | .edit op => (step s op).1
   | .ask q => (query s q).1
 
 def run (s : State) (h : List HOp) : State := h.foldl stepH s
